@@ -410,6 +410,15 @@ def build_cases(ctx, rng, deep=False, counts=None):
                 ip, ig, ih = C.int1(m, a, b, p), C.int1(m, a, b, g), C.int1(m, a, b, h)
                 C.checks.append({"kind": "linear1", "ids": [ip, ig, ih], "method": m, "a": a, "b": b, "p": p, "g": g,
                                  "alpha": alpha, "beta": beta, "tol": abs(alpha) * tp + abs(beta) * tg + th})
+    # finding F5e (seed-independent witness): adaptive Simpson accepts aliased samples — exp(4ix) over [0, 2 pi] is 1 at all five
+    # first-level sample points, so every tolerance returns b - a = 2 pi instead of 0
+    for t in ([1e-6] if quick else tols):
+        m = {"m": "asimp", "tol": hx(t), "depth": 40}
+        f = Expi(4.0, 1.0)
+        a, b = 0.0, 2 * math.pi
+        i1 = C.int1(m, a, b, f)
+        tol, clause = method_accuracy(m, f, a, b)
+        C.checks.append({"kind": "accuracy1", "id": i1, "method": m, "a": a, "b": b, "f": f, "tol": tol, "clause": clause})
     # the direct entry points agree with the Integrator dispatch
     for d in (50, 51):
         a, b = C.interval()
@@ -969,7 +978,8 @@ def gl_certificates(ctx, gl_tables):
 
 def build_findings(ctx):
     """refuted lemmas of the known defects: outside the obligation set; if one stops compiling the defect is gone"""
-    for f, fid in (("Findings/C12_accept.vo", "F5a/F5b (accepted divs)"), ("Findings/C12_adaptive_reverse.vo", "F5c (adaptive Simpson reversal)")):
+    for f, fid in (("Findings/C12_accept.vo", "F5a/F5b (accepted divs)"), ("Findings/C12_adaptive_reverse.vo", "F5c (adaptive Simpson reversal)"),
+                   ("Findings/C12_adaptive_alias.vo", "F5e (adaptive Simpson accepts aliased samples)")):
         ok, fails, _ = coq_build(ctx, [f], timeout=600)
         if not ok:
             ctx.note(f"finding {fid}: refuted lemma {f[:-1]} no longer compiles on this tree — the defect no longer reproduces on the model")
@@ -1058,6 +1068,7 @@ def run(ctx):
         sg = v["sig"]
         return sg.get("kind") in ("simpson_1d_rejects", "simpson2d_rejects_divs_accepted_in_1d") or \
             (sg.get("kind") == "reverse" and sg.get("method") == "AdaptiveSimpson") or \
+            (sg.get("kind") == "accuracy" and sg.get("method") == "AdaptiveSimpson" and sg.get("integrand") == "expi") or \
             (sg.get("kind") in ("panic", "time") and sg.get("method") == "GaussKonrod")
     new_input = any(v["found_input"] and not baseline(v) for v in ctx.violations)
     if (not proved or nbad) and not new_input:
@@ -1090,7 +1101,7 @@ def run(ctx):
         "Simpson exact on complex cubics, every interval, every accepted divs (1-D) / even divs>=4 (2-D)": "proved (translated kernels over R/C) + measured 1e-12 (binary64) + Q-model correspondence",
         "n-point Gauss-Legendre exact to degree 2n-1": "proved per extracted rule: kernel-checked moment certificate (1e-13) + C12_certified_rule_exact, re-extracted every run; binary64 evaluation measured",
         "adaptive Simpson exact on cubics (a<=b), Richardson step exact to degree 5, accepted panel error <= eps": "proved",
-        "smooth oscillatory integrands within textbook bound / tolerance": "proved for Simpson 1-D on amp*exp(ikx) (C12_simpson_expi_bound: |b-a| h^4 k^4 |amp|/180, every interval/k/amplitude/accepted divs); Gauss-Legendre bound and the adaptive methods' tolerances validated_only (oracle on amp*exp(ikx))",
+        "smooth oscillatory integrands within textbook bound / tolerance": "REFUTED for adaptive Simpson (Findings/C12_adaptive_alias.v: exp(4ix) on [0,2pi] returns 2pi for every tolerance); proved for Simpson 1-D on amp*exp(ikx) (C12_simpson_expi_bound: |b-a| h^4 k^4 |amp|/180, every interval/k/amplitude/accepted divs); Gauss-Legendre bound and the adaptive methods' tolerances validated_only (oracle on amp*exp(ikx))",
         "reversing the interval negates": "proved for Simpson 1-D/2-D (all integrands); proved within 2*bound for certified Gauss-Legendre on polynomials; REFUTED for adaptive Simpson (C12_adaptive_symmetric, Findings/C12_adaptive_reverse.v); Gauss-Kronrod, Clenshaw-Curtis validated_only",
         "linear in the integrand": "proved for every fixed rule (Simpson 1-D/2-D, Gauss-Legendre adapter); adaptive methods validated_only",
         "2-D separable = product of 1-D": "proved for tensor rules (C12_tensor, C12_simpson2d_product_of_1d); others validated_only",
